@@ -326,7 +326,7 @@ func freePort(proto string) (int, error) {
 	if nextPort == 0 {
 		nextPort = os.Getpid() % 430
 	}
-	for i := 0; i < 430; i++ {
+	for i := 0; i < 430 && len(myTriples) < 120; i++ {
 		p := lo + (nextPort*3)%1290
 		nextPort++
 		lf, err := net.Listen("unix", fmt.Sprintf("@verif-c08-port-%d", p))
@@ -348,12 +348,40 @@ func freePort(proto string) (int, error) {
 		}
 		if ok {
 			portLocks = append(portLocks, lf)
+			myTriples = append(myTriples, p)
 			return p, nil
 		}
 		lf.Close()
 	}
+	// every triple of the range is claimed (by this process earlier on, or by another run):
+	// use one of this process's own claims again - its earlier server has been stopped
+	for i := 0; i < len(myTriples); i++ {
+		p := myTriples[(reuse+i)%len(myTriples)]
+		ok := true
+		for d := 0; d < 3 && ok; d++ {
+			if t, err := net.Listen("tcp", fmt.Sprintf("127.0.0.1:%d", p+d)); err != nil {
+				ok = false
+			} else {
+				t.Close()
+			}
+			if u, err := net.ListenPacket("udp", fmt.Sprintf("127.0.0.1:%d", p+d)); err != nil {
+				ok = false
+			} else {
+				u.Close()
+			}
+		}
+		if ok {
+			reuse = (reuse + i + 1) % len(myTriples)
+			return p, nil
+		}
+	}
 	return 0, fmt.Errorf("no free port triple in this shard's range")
 }
+
+var (
+	myTriples []int
+	reuse     int
+)
 
 var prefixes = []string{"A", "AB", "B", "GET ", "", "ABC"}
 var heads = []string{"ABCDEF", "AB", "A", "Bxx", "GET / HTTP/1.0\r\n\r\n", "zzz", "", "ABC", "\x00\x01"}
